@@ -160,8 +160,8 @@ func c09r9(r *R) {
 func c14r6(r *R) {
 	fn := r.method("pac", "ProxyResolver", "sortIPAddressList")
 	var cmp *ssa.Function
-	for _, lit := range fn.AnonFuncs {
-		if len(lit.Params) == 2 && lit.Signature.Results().Len() == 1 && typeStr(lit.Signature.Results().At(0).Type()) == "bool" {
+	for _, lit := range anonFuncs(fn) {
+		if len(litParams(lit)) == 2 && lit.Signature.Results().Len() == 1 && typeStr(lit.Signature.Results().At(0).Type()) == "bool" {
 			cmp = lit
 		}
 	}
